@@ -9,7 +9,7 @@ of the claim, does not fail the run).
 QUICK_TIMEOUT = 900      # s per harness (quick-tier membership is set from measurements well below this)
 THOROUGH_TIMEOUT = 1800  # s per harness
 SHARD_SIZE = 24          # harnesses per cargo-kani invocation
-MAX_PARALLEL_SHARDS = 4
+MAX_PARALLEL_SHARDS = 3
 
 STUBS = [
     "std::fmt::format -> String::new() (Kani only; all error messages are format!; no property is about message text)",
@@ -341,7 +341,7 @@ def tmpl_harnesses(rows, family, prop, what):
         plain = r["harness"] == "%s_%s" % (family, r["name"])  # the unit / list input variants are thorough-tier
         tier = "quick" if ((quick is None or r["name"] in quick) and (plain or (prop in ("C17", "C10") and r["harness"].endswith("_inlist")))) else "thorough"
         desc = "%s: source `%s`%s, input value %s — %s" % (r["name"], r["source"], (" (variant of `%s`)" % r["original"]) if r["original"] else "", r["input"], what)
-        out.append(H(r["harness"], "tmpl", tier, desc, cbmc_args=FIELD_SENS, timeout=1500 if tier == "thorough" else 900, jobs_weight=1.3, shard_size=8))
+        out.append(H(r["harness"], "tmpl", tier, desc, cbmc_args=FIELD_SENS, timeout=1500 if tier == "thorough" else 900, jobs_weight=1.3, shard_size=6))
     return out
 
 
